@@ -35,6 +35,28 @@ theorem fault_safe (dest : Disk) (w : Workspace) (ow : Bool) (h : (save dest w o
     | none => simp
     | some t => simp [hw] at h
 
+/-- a workspace with an entry that cannot be stored at all (neither a data object nor a dictionary), wherever it sits
+    among the entries, is never written: the call raises and the destination is what it was -/
+theorem raw_entry_refused (dest : Disk) (w : Workspace) (ow : Bool) (k : String) (hk : (k, Entry.raw) ∈ w) :
+    (save dest w ow).raised = true ∧ (save dest w ow).disk = dest := by
+  have hw : writeAll w = Option.none := by
+    induction w with
+    | nil => cases hk
+    | cons e rest ih =>
+      obtain ⟨k', e'⟩ := e
+      rcases List.mem_cons.1 hk with h | h
+      · cases h
+        simp [writeAll, writeEntry]
+      · have := ih h
+        simp only [writeAll, this]
+        cases writeEntry e' <;> rfl
+  have hr : (save dest w ow).raised = true := by
+    unfold save
+    split
+    · rfl
+    · simp [hw]
+  exact ⟨hr, fault_safe dest w ow hr⟩
+
 /-- a successful save holds exactly the tree of the whole workspace (which loads back by C07) -/
 theorem success (dest : Disk) (w : Workspace) (ow : Bool) (h : (save dest w ow).raised = false) :
     ∃ t, writeAll w = some t ∧ (save dest w ow).disk = .holds t := by
